@@ -481,6 +481,11 @@ def canonical(st: dict) -> dict:
         for b in sec["blocks"]:
             b.pop("u", None)
             b.pop("addr", None)
+        for g in sec.get("gaps", []):
+            g.pop("u", None)
+        # zero-sized blocks at one position have no order among themselves
+        sec["blocks"].sort(key=lambda b: (b["p"], b["n"] != 0,
+                                          json.dumps(b, sort_keys=True) if b["n"] == 0 else ""))
     c.pop("whole", None)
     return c
 
@@ -489,6 +494,7 @@ def whole_ir_report(m: gtirb.Module, orig_cfg=None) -> dict:
     """Observer facts for the whole-IR validator (C05): aux-data closure,
     addresses, protobuf round trip (done here, judged in TLA+)."""
     import hashlib
+import json
     import io
     import json as _json
 
